@@ -273,12 +273,22 @@ def run_check(prop, tier, seed, replay=None):
             if not a["ok"]:
                 broken.append(f"theorem {a['name']}: axioms={a['axioms']} {a.get('msg','')}")
     else:
-        # which modules fail?  try the model + driver alone so that the tie can still run
+        # which modules fail?  build them one by one, audit the theorems of those that still check, and try the model +
+        # driver alone so that the tie can still run
         errs = re.findall(r"error: ([^\n]*)", build_log)
         broken.append("lake build failed: " + "; ".join(errs[:6]))
         ok2, _ = lake_build(["ZeepModel", "zdriver"])
         notes.append("build failed; model+driver alone build: %s" % ok2)
         ctx.model_ok = ok2
+        good = []
+        for m in mod.LEAN_MODULES:
+            okm, _ = lake_build([m])
+            (good if okm else notes).append(m if okm else "module %s no longer builds" % m)
+        if good:
+            audit_res, audit_text = audit(prop, good, mod.THEOREMS)
+            for a in audit_res:
+                if not a["ok"]:
+                    broken.append(f"theorem {a['name']}: axioms={a['axioms']} {a.get('msg','')}")
     forb = grep_forbidden()
     if forb:
         broken.append("forbidden constructs: " + "; ".join(forb[:5]))
@@ -342,7 +352,7 @@ def run_check(prop, tier, seed, replay=None):
 
     wall = time.time() - t0
     obligations = len(mod.THEOREMS)
-    discharged = sum(1 for a in audit_res if a["ok"]) if build_ok else 0
+    discharged = sum(1 for a in audit_res if a["ok"])
     level = getattr(mod, "LEVEL", "proof")
     cov = dict(
         obligations=obligations,
